@@ -1,4 +1,5 @@
 import RsslVerif.Lemmas.Layout
+import RsslVerif.Lemmas.LayoutFix
 /-!
 # C19 — layout-consistency validation is sound
 
@@ -17,6 +18,7 @@ are **false on the pinned tree**; their negations are proved below with concrete
 -/
 namespace RsslVerif.Thm.C19
 open RsslVerif.Gen.LayoutTables RsslVerif.Model.Layout RsslVerif.Spec.Layout RsslVerif.Lemmas.Layout
+open RsslVerif.Lemmas.LayoutFix
 
 /-! ## Tie to the source tables -/
 
@@ -171,6 +173,21 @@ theorem check_total (t : Ty) (hw : wf t = true) (hh : size .hlsl t ≤ u32Max)
 theorem get_le_spec (m : Mode) (t : Ty) (hw : wf t = true) (hb : size m t ≤ u32Max) :
     ∃ l, get m t = .ok l ∧ l.size ≤ size m t ∧ l.align = align m t :=
   get_total m t hw hb
+
+/-! ## The candidate fix (notes/C19.md) restores the full statements
+
+`getFix` = `get` + one statement at the end of the `Struct` arm (op `.roundSizeToAlign`);
+`checkFix` additionally compares member offsets and array strides at every level
+(`Lemmas/LayoutFix.lean`).  These are statements about the *proposed* code, not about `/repo`. -/
+
+/-- full-strength `get_matches_spec` for the fixed `get_type_layout`: every type of the grid -/
+theorem fixed_get_matches_spec (m : Mode) (t : Ty) (l : Layout) (hw : wf t = true)
+    (h : getFix m t = .ok l) : l.size = size m t ∧ l.align = align m t :=
+  getFix_spec m t l hw h
+
+/-- full-strength `check_sound` for the fixed `check_layout`: no side condition on the type -/
+theorem fixed_check_sound (t : Ty) (hw : wf t = true) (h : checkFix t = .ok true) : Agree t :=
+  fix_sound t hw h
 
 /-! ### non-vacuity: a depth-3 type with arrays and vectors satisfies every hypothesis of
     `check_sound_partial` and is accepted -/
